@@ -62,6 +62,11 @@ def gen_cases(tier, seed):
             cases.append({"kind": "dispatch", "mode": mode, "crystal": {"name": ["tric_ilv", "rocksalt", "tric3", "wurtzite", "perovskite"][int(rng.integers(5))],
                                                                            "order": ["asis", "interleave", "random"][int(rng.integers(3))], "order_seed": int(rng.integers(1000))},
                           "smat": smats[int(rng.integers(len(smats)))], "seed": int(rng.integers(10 ** 6)), "_cost": 3})
+        # ... and, for every interface and in every run, strongly skewed supercells (a hexagonal cell doubled along b and c; a triclinic one tripled
+        # along c): formats that prescribe a reduced or rotated box (LAMMPS tilt factors, ...) have to change the basis there, and the
+        # coordinates with it. (Fixed cases: what the random draws above produce shifts whenever a generator is added before them.)
+        cases.append({"kind": "dispatch", "mode": mode, "crystal": {"name": "wurtzite", "order": "asis", "order_seed": 0}, "smat": [[1, 0, 0], [0, 2, 0], [0, 0, 2]], "seed": 1, "_cost": 3})
+        cases.append({"kind": "dispatch", "mode": mode, "crystal": {"name": "tric3", "order": "interleave", "order_seed": 0}, "smat": [[1, 0, 0], [1, 2, 0], [0, 1, 3]], "seed": 2, "_cost": 3})
     # WIEN2k: case.scf lists positions and forces of one atom per equivalent set only; phonopy reconstructs the forces on all atoms with the
     # symmetry of the displaced supercell - whichever member of a set the output happens to list
     for i in range(3 if tier == "quick" else 12):
